@@ -82,3 +82,18 @@ Theorem C07_bid_if : forall e st c sender funds id fee price quote qsize size p 
              (create_bid_attrs (new_bid sender id (cf_base c) fee price quote qsize size))).
 Proof. exact create_bid_if. Qed.
 Print Assumptions C07_bid_if.
+
+(* the capacity class, exactly: an admitted bid has size and quote size below 2^96 (the decimal type's capacity).  Together
+   with C07_bid_if (every request meeting the listed conditions with amounts below 2^96 is admitted) this pins down
+   K_capacity (known_findings.json) as "an amount of 2^96 or more", nothing else *)
+Theorem C07_capacity : forall e st sender funds id base fee price quote qsize size st' r,
+  execute FX e st sender funds (CreateBid id base fee price quote qsize size) = Ok (st', r) ->
+  size < B96 /\ qsize < B96.
+Proof.
+  intros e st sender funds id base fee price quote qsize size st' r H.
+  unfold execute in H. guard_inv H Hv. cbn [validate_exec] in *.
+  apply create_bid_inv in H as (c & p & total & dq & rate & calc & tot & _ & _ & _ & Hm & _ & Hdq & _).
+  unfold mul_size in Hm. bind_inv Hm dn Hdn. unfold dec_of_u128 in Hdn. apply of_opt_ok in Hdn.
+  apply dec_from_u128_ok in Hdn as [Hs _]. apply dec_from_u128_ok in Hdq as [Hq _]. split; assumption.
+Qed.
+Print Assumptions C07_capacity.
